@@ -55,10 +55,14 @@ def observe(at, c):
     if c["sat"] != NONE:
         prog.saturation = TimeSeries(assumption=float(fr(c["sat"])), units="N.A.")
     ow = c["ow"]
+
+    def form(pair, units):  # equal values: the documented scalar form (assigned to the start year), otherwise a two-point TimeSeries
+        return float(fr(pair[0])) if pair[0] == pair[1] else series(pair, units)
+
     ins = at.ProgramInstructions(start_year=2016.0,
-                                 alloc={"P1": series(ow["spend"], "$/year")} if ow["spend"] != NONEP else None,
-                                 capacity={"P1": series(ow["cap"], "people/year")} if ow["cap"] != NONEP else None,
-                                 coverage={"P1": series(ow["cov"], "N.A.")} if ow["cov"] != NONEP else None)
+                                 alloc={"P1": form(ow["spend"], "$/year")} if ow["spend"] != NONEP else None,
+                                 capacity={"P1": form(ow["cap"], "people/year")} if ow["cap"] != NONEP else None,
+                                 coverage={"P1": form(ow["cov"], "N.A.")} if ow["cov"] != NONEP else None)
     t = np.array([YEAR[c["t"]]])
     dt = float(fr(c["dt"]))
     cap = ps.get_capacities(t, dt, ins)
@@ -81,7 +85,9 @@ def run(prop, tier):
                .replace("MCCosts == {<<1,2>>, <<20,1>>}", "MCCosts == {<<1,2>>, <<1,1>>, <<20,1>>}")
                .replace("MCDts == {<<1,12>>, <<1,4>>, <<1,1>>}", "MCDts == {<<1,12>>, <<1,10>>, <<1,4>>, <<1,1>>, <<2,1>>}")
                .replace("MCSats == {None, <<1,2>>, <<3,1>>}", "MCSats == {None, <<1,2>>, <<1,1>>, <<3,1>>}")
-               .replace("<<<<1,1>>, <<1,1>>>>}", "<<<<1,1>>, <<1,1>>>>, <<<<1000,1>>, <<7,1>>>>}")}
+               .replace("<<<<1,1>>, <<1,1>>>>}", "<<<<1,1>>, <<1,1>>>>, <<<<1000,1>>, <<7,1>>>>}")
+               .replace("cap |-> {<<<<2,1>>, <<400,1>>>>}", "cap |-> {<<<<2,1>>, <<400,1>>>>, <<<<0,1>>, <<0,1>>>>}")
+               .replace("cov |-> {<<<<1,4>>, <<3,1>>>>}", "cov |-> {<<<<1,4>>, <<3,1>>>>, <<<<1,2>>, <<1,2>>>>}")}
     r, cases = C.enumerate_cases(["Rat", "Coverage", "MCCoverage"], "MCCoverage", cfg(), timeout=3000, generated=gen)
     cov = dict(states=r.distinct, transitions=r.generated, traces_validated_against_impl=0, samples=[], exhaustive=True, cases=len(cases))
     records, index = [], {}
